@@ -176,7 +176,7 @@ func TestVerif_C37(t *testing.T) {
 		k := c.Pick(7, 10)
 		c.Rule(fmt.Sprintf("identities = names over the alphabet {a,_} (free positions: first 2 and last %d characters) of every length 1-3, limit-2..limit+2 and limit+9 for each naming function and table flavour "+
 			"(iptables limit 28, nftables limit 256), x all 7 policy kinds + an unknown kind starting with the marker x namespaces {none,n,_n} x both directions; all 8 endpoint chain prefixes; "+
-			"every shortened name is fed back as an identity of its own (adversarial: an object literally named like another's shortened form); policy groups over 4 selectors x all policy sequences of length <=3 from 3 policies; "+
+			"every shortened name is fed back as an identity of its own (adversarial: an object literally named like another's shortened form); policy groups over 4 selectors x both directions x all policy sequences of length <=3 from 12 policies in which kind, namespace and name each vary alone (same name/namespace across enforced, staged and kubernetes kinds); "+
 			"IP set ids = 9 static ids + MakeUniqueID(s|n|svc|svcnoport, 600 contents), v4+v6, main and temp names, nft-legalised; small-scale: every suffix over {a,b,_} up to length limit+2 for limits 4..8. "+
 			"states = distinct (class, identity) filed; transitions = real naming calls; non-trivial = name shortened or exactly at the limit", k))
 		c.Assume("the empty identity is outside the domain (GetLengthLimitedID maps it to the marker \"_\" on purpose, so \"\" and \"_\" share a name; no Calico object has an empty name)")
@@ -297,10 +297,22 @@ func TestVerif_C37(t *testing.T) {
 			}
 			c.Extra("feedback_identities/"+flavour, len(feedback))
 			// policy groups (same names in both flavours)
+			// member policies chosen so that every field varies ALONE at least once: same (namespace, name) across
+			// kinds (enforced / staged / kubernetes variants), same (kind, name) across namespaces, same (kind,
+			// namespace) across names, and a pair whose namespace+name concatenations coincide
 			pols := []*types.PolicyID{
 				{Kind: "NetworkPolicy", Namespace: "n", Name: "a"},
 				{Kind: "NetworkPolicy", Namespace: "n", Name: "b"},
+				{Kind: "NetworkPolicy", Namespace: "m", Name: "a"},
+				{Kind: "StagedNetworkPolicy", Namespace: "n", Name: "a"},
+				{Kind: "KubernetesNetworkPolicy", Namespace: "n", Name: "a"},
+				{Kind: "StagedKubernetesNetworkPolicy", Namespace: "n", Name: "a"},
 				{Kind: "GlobalNetworkPolicy", Name: "a"},
+				{Kind: "GlobalNetworkPolicy", Name: "b"},
+				{Kind: "StagedGlobalNetworkPolicy", Name: "a"},
+				{Kind: "KubernetesClusterNetworkPolicy", Name: "a"},
+				{Kind: "NetworkPolicy", Namespace: "na", Name: "b"},
+				{Kind: "NetworkPolicy", Namespace: "n", Name: "ab"},
 			}
 			var seqs [][]*types.PolicyID
 			var rec func(cur []*types.PolicyID)
